@@ -215,6 +215,16 @@ fn run(c: &mut Ctx, t: &[&str], precap: Option<usize>) -> Option<Out> {
       if crate::serde_script::shadow_in_place(v, &mut sq) { Out::Unit } else { Out::Text("err".to_string()) }
     }
     "shrink_to_fit" | "raw_part" | "views" => Out::Unit,
+    "fill_spare" | "fill_split_spare" => {
+      let k = crate::script::num(t[2])?;
+      let val = crate::script::val(t[3])?;
+      let room = precap?.saturating_sub(len);
+      let n = k.min(room);
+      for i in 0..n {
+        v.push(val + i as i64);
+      }
+      Out::Nums(vec![n as u64])
+    }
     "split_spare" | "raw_parts" => Out::Nums(vec![len as u64]),
     _ => return crate::shadow_iter::run2(c, t),
   })
